@@ -528,6 +528,7 @@ static Boolean DecodeAdr(tStrComp const* pArg, Word Mask) {
     if (*pArg->str.p_str == '!') {
         AdrWVal = EvalStrIntExpressionOffsWithResult(pArg, 1, UInt16, &EvalResult);
         if (EvalResult.OK) {
+            AdrVal = AdrWVal & 15; /* if not (yet) known to lie in the register page */
             if (!mFirstPassUnknown(EvalResult.Flags)
                 && !IsWRegAddress(AdrWVal, &AdrVal)) {
                 WrError(ErrNum_InAccPage);
